@@ -149,6 +149,12 @@ def tiny_strength(cards, tname):
     if tname == 'JQLow':
         vals = [{'J': 1, 'Q': 0}[r] for r in ranks if r in 'JQ']
         return max(vals) if vals else None
+    if tname == 'TwoCardAny':
+        vals = sorted(('23456789TJQKA'.index(r) for r in ranks), reverse=True)
+        if len(vals) < 2:
+            return None
+        pairs = [v for v in set(vals) if vals.count(v) >= 2]
+        return (1, max(pairs), 0) if pairs else (0, vals[0], vals[1])
     if tname == 'HighCardAny':
         vals = ['23456789TJQKA'.index(r) for r in ranks]
         return max(vals) if vals else None
